@@ -71,9 +71,20 @@ func NewStoreStreamReceiver(r io.Reader) *storeStreamReceiver {
 }
 
 func (s *storeStreamReceiver) Recv() (*datatypes.ReadResponse, error) {
-	typ, buf, err := ReadTLV(s.r)
+	// The stream ends where a message would start: EOF before the first byte of a
+	// message is the end of the stream.
+	typ, err := ReadType(s.r)
 	if err != nil {
 		if strings.Contains(err.Error(), "EOF") || strings.Contains(err.Error(), "use of closed network connection") {
+			return nil, io.EOF
+		}
+		return nil, err
+	}
+	// EOF inside a message (its size or its value cut short) means the sender went
+	// away in the middle of the stream: that is an error, not the end of the stream.
+	buf, err := ReadLV(s.r)
+	if err != nil {
+		if strings.Contains(err.Error(), "use of closed network connection") {
 			return nil, io.EOF
 		}
 		return nil, err
